@@ -1,4 +1,5 @@
 import Wayfind.Proofs.Reachable
+import Wayfind.Proofs.LiveWalk
 import Wayfind.Generated.Facts
 
 /-! # C03 — the documented priority picks the winner
@@ -8,7 +9,9 @@ kind in alphabetical order of name then constraint; among the values of one para
 template, then the longer value. The theorem: on every router reachable through the API — whatever flags, dirty
 marks and radix splits its history left — `search` *is* that walk over the tree's routes, and reports the winner's
 template, expansion, data and parameter list.
-Status: **partial** — stored routes ↔ live templates is the registry invariant; see C01. -/
+Status: proved for every history, on stored routes (`C03_search_is_documented_walk`) and **on live templates**
+(`C03_walk_over_live_templates`: the route list is written down from the live templates alone — one route per expansion,
+with the template text, the data, and the text, depth and length of the expansion that owns the key). -/
 
 theorem C03_search_is_documented_walk (env : Env) (r : Router) (h : Reachable r) (path : Bytes) :
     r.search env path =
@@ -28,3 +31,11 @@ theorem C03_best_rule (r : Info) (b : Info) (ps : Params) :
 
 /-- generated obligation: `Node::search` tries the seven kinds in the documented order -/
 theorem C03_kind_order_in_source : Generated.searchKindOrder = [0, 1, 2, 3, 4, 5, 6] := by decide
+
+/-- **On live templates.** The result of every search on a router reached through the API is the documented walk over
+`specRoutes L`, the route list of its live templates: literal text first, then constrained dynamic, dynamic, constrained
+wildcard, wildcard, constrained catch-all, catch-all; alphabetical among siblings; among the values of one parameter the
+continuation with more '/' wins, then the longer template, then the longer value (`refWalk`, Spec/RefWalk.lean). -/
+theorem C03_walk_over_live_templates (env : Env) (r : Router) (L : List LiveT) (h : Live r L) (path : Bytes) :
+    r.search env path = (refWalk env path.length (specRoutes L) path []).map toMatch :=
+  search_is_walk_over_live env h path
